@@ -280,6 +280,39 @@ func ruleP19CmdEffects(p *Prog, r *Report) {
 				}
 			}
 			r.check(okB, rule, s.cmd+":bookmark", p.instrPos(op), "sets the bookmark named by the argument (unnamed -> default bookmark)", "the bookmark that is set is not NewBookmark(name argument, file) / NewDefaultBookmark(file) for the empty name")
+			// what is validated is what is stored: the target handed to ReadInputs for the
+			// validity check is the Path() of the very File the bookmark is made of (the raw
+			// argument may be read as something else — `@team.klg` is a bookmark name to ReadInputs)
+			var stored []ssa.Value
+			for _, rw := range rows {
+				if rc, _ := callOf(rw.val); rc != nil && len(rc.Common().Args) > 0 {
+					stored = append(stored, rc.Common().Args[len(rc.Common().Args)-1])
+				}
+			}
+			eachVInstr(run, func(in ssa.Instruction) {
+				c, ok := in.(ssa.CallInstruction)
+				if !ok || !c.Common().IsInvoke() || c.Common().Method.Name() != "ReadInputs" {
+					return
+				}
+				okSame := false
+				if es, isLit := sliceLitElems(c.Common().Args[0]); isLit && len(es) == 1 {
+					v := strip(es[0])
+					if cv, isConv := v.(*ssa.Convert); isConv {
+						v = strip(cv.X)
+					}
+					if ct, isCT := v.(*ssa.ChangeType); isCT {
+						v = strip(ct.X)
+					}
+					if nm, recv, _, _ := methodCall(v); nm == "Path" && recv != nil {
+						for _, sv := range stored {
+							if sameValue(recv, sv) || strip(recv) == strip(sv) {
+								okSame = true
+							}
+						}
+					}
+				}
+				r.check(okSame, rule, s.cmd+":validated-target", p.instrPos(c), "the target that is validated is the Path() of the file that is stored", "`bookmarks set` validates something other than the path of the file it stores: a target that ReadInputs reads differently from NewFile (a file name beginning with @) is refused although valid, or a dangling path is stored because a bookmark of that name exists")
+			})
 		case "Remove":
 			c, ok := isCallTo(op.Common().Args[0], newName, 0)
 			okN := false
@@ -521,6 +554,12 @@ func ruleP19Remove(p *Prog, r *Report) {
 				}
 			}
 		}
+		// or the map emptied in place
+		if c, ok := in.(*ssa.Call); ok {
+			if bi, isB := c.Call.Value.(*ssa.Builtin); isB && bi.Name() == "clear" && len(c.Call.Args) == 1 && isMap(c.Call.Args[0], clr) && len(guardsOf(c.Block())) == 0 {
+				okClr = true
+			}
+		}
 	})
 	r.check(okClr, rule, "Clear", p.pos(clr.Pos()), "Clear replaces the map by an empty one", "Clear does not replace the map by a new empty map")
 	// Get: lookup of the key given
@@ -529,6 +568,9 @@ func ruleP19Remove(p *Prog, r *Report) {
 		if lk, ok := strip(retResult(ret, 0)).(*ssa.Lookup); ok && isMap(lk.X, get) && strip(lk.Index) == ssa.Value(get.Params[1]) {
 			okGet = true
 		}
+	}
+	if lk := getterLookup(get); !okGet && lk != nil && isMap(lk.X, get) && strip(lk.Index) == ssa.Value(get.Params[1]) {
+		okGet = true // `if b, ok := m[k]; ok { return b }; return nil`
 	}
 	r.check(okGet, rule, "Get", p.pos(get.Pos()), "Get looks up the key given", "Get does not look up the key it is given")
 }
@@ -936,6 +978,34 @@ func ruleP19Names(p *Prog, r *Report) {
 		}
 	}
 	r.check(okDefault, "P19-resolve", "no-args", p.pos(fr.Pos()), "no argument resolves through Default()", "without arguments the default bookmark is not consulted (only) when no argument is given")
+	// every argument resolves, or the command fails: files are handed out only when no argument
+	// failed (an unknown @name next to a known one is an error, not a shorter list)
+	var failures ssa.Value
+	for _, ret := range returnsOf(fr) {
+		if len(ret.Results) == 2 && !isNilConst(retResult(ret, 1)) {
+			for _, g := range guardsOf(ret.Block()) {
+				if x, isNil, ok := nilFact(g); ok && !isNil && isSliceOfBasic(x.Type()) {
+					failures = x
+				}
+			}
+		}
+	}
+	if failures == nil {
+		r.undecided("P19-resolve", "all-or-nothing", p.pos(fr.Pos()), "the list of failed arguments that decides about the error return was not found")
+	} else {
+		for i, ret := range returnsOf(fr) {
+			if len(ret.Results) != 2 || !isNilConst(retResult(ret, 1)) {
+				continue
+			}
+			okNone := false
+			for _, g := range guardsOf(ret.Block()) {
+				if x, isNil, ok := nilFact(g); ok && isNil && (sameValue(x, failures) || strip(x) == strip(failures)) {
+					okNone = true
+				}
+			}
+			r.check(okNone, "P19-resolve", fmt.Sprintf("all-or-nothing:return#%d", i), p.instrPos(ret), "files are handed out only when no argument failed to resolve", "the file retriever can hand out files although some argument failed to resolve (an unknown @name, an unreadable file): the failure is dropped and the command works on a shorter list")
+		}
+	}
 }
 
 // edgeGuard: the condition implied by taking the edge from pb to succ.
@@ -948,4 +1018,14 @@ func edgeGuard(pb, succ *ssa.BasicBlock) []Guard {
 		return nil
 	}
 	return flattenCond(iff.Cond, pb.Succs[0] == succ, iff)
+}
+
+// isSliceOfBasic: t is a slice of a basic type ([]string — a list of messages).
+func isSliceOfBasic(t types.Type) bool {
+	sl, ok := t.Underlying().(*types.Slice)
+	if !ok {
+		return false
+	}
+	_, isB := sl.Elem().Underlying().(*types.Basic)
+	return isB
 }
